@@ -168,6 +168,8 @@ def run(ctx):
             bad = oracle_sequential(spec, res)
             if bad:
                 ctx.violate("sequencing", dict(rp, observed=bad))
+            elif res.get("stalled"):
+                ctx.violate("stall", dict(rp, observed="the script has not finished, the connection is up, yet no timer is pending and nobody waits for an update: the remaining commands can never run and the connection is never closed"))
             ml, chk = compare_with_model(ctx, spec, res, "model-vs-vncdo", inp)
             if chk:
                 checks.append((len(lines), len(ml), chk))
